@@ -71,9 +71,10 @@ theorem C03_partial (p : CProg) (code : List Insn) (hok : progOkC p = true) (hem
     exact ⟨k, hk, σ', hrun, sem_semZ k _ σ σ' hok.2 hsem⟩
   · cases hok
 
-/-- **surface level of conditions**: under the decidable side conditions `SCond.surfOk` (no computed addresses, not
-*sum-minus*), the truth value `CObj.truth` that `C03_partial` speaks about — that of the comparison object the
-operator overloads built — is the truth value of the condition as written (`SCond.truthZ`: Python integers) -/
+/-- **surface level of conditions**: under the decidable side conditions `SCond.surfOk` (no computed addresses; no
+operator is excluded — `Sum - expression`, formerly class *sum-minus*, is inside), the truth value `CObj.truth` that
+`C03_partial` speaks about — that of the comparison object the operator overloads built — is the truth value of the
+condition as written (`SCond.truthZ`: Python integers) -/
 theorem C03_surface_truth (p : CProg) (c : SCond) (co : CObj) (σ : State) (hok : c.surfOk (layout p.vars) = true)
     (h : elabC (layout p.vars) c = .ok co) : co.truth σ = c.truthZ (layout p.vars) σ :=
   elabC_truth (layout p.vars) σ c co hok h
@@ -228,6 +229,32 @@ def pGood : CProg := ⟨[3, 4, 10], vvars,
     (mark 16)⟩
 
 example : progOkC pGood = true ∧ (emitCProg pGood).toOption.isSome = true ∧ (codeOfC pGood).length = 30 := by
+  decide +kernel
+
+/-- `Sum - expression` and one `Sum` used twice inside a condition (repaired; was class *sum-minus*, whose witness
+`with (self.r5 + 3) - self.r3 > 9` with r5 = 10, r3 = 4 computed 17 and ran the body):
+```
+with (self.r5 + 3) - self.r3 > 9 as Else:            res |= 2
+with Else:
+    with ((self.r5 + 3) + 4) - self.r3 == 13:        res |= 4
+res |= 8
+```
+inside `C03_partial` and `C03_surface_truth`, accepted; with r5 = 10, r3 = 4 the first condition is false (9 > 9), the
+second true: res = 4 | 8 -/
+def cS : SCond := .cmp .gt (.bin .sub (.bin .add (.reg .r 5) (.c 3)) (.reg .r 3)) (.c 9)
+def cS2 : SCond := .cmp .eq (.bin .sub (.bin .add (.bin .add (.reg .r 5) (.c 3)) (.c 4)) (.reg .r 3)) (.c 13)
+def pS : CProg := ⟨[3, 5, 10], vvars, .seq (.ifElse cS (mark 2) (.ifThen cS2 (mark 4))) (mark 8)⟩
+def sS : State := st0 [(3, 4), (5, 10), (10, 4096)]
+
+/-- the variable `res` (at r10 − 24 in `vvars`) after running the code -/
+def resAfter (code : List Insn) (s : State) : Nat :=
+  match run code (code.length + 1) s with
+  | .fell s' => loadN s'.mem (s'.regs 10 + BitVec.ofInt 64 (-24)) 8
+  | _ => 0
+
+example : progOkC pS = true ∧ cS.surfOk (layout pS.vars) = true ∧ cS2.surfOk (layout pS.vars) = true ∧
+    (emitCProg pS).toOption.isSome = true ∧ classesOf pS = [] ∧
+    truthOf pS cS sS = false ∧ truthOf pS cS2 sS = true ∧ resAfter (codeOfC pS) sS = 12 := by
   decide +kernel
 
 end Ebv.C03
